@@ -31,6 +31,8 @@ type e2eRig struct {
 	dialer   *vnet.Dialer
 	pub      [32]byte
 	adminUID []byte
+	accepted int      // connections accepted so far, over all listeners of the rig
+	cdnEdge  string   // how the in-process CDN edge treats traffic: "", pieces, lower (startCDN)
 	cdnSNI   []string // server names seen by the in-process CDN edge (startCDN)
 	// wrapAccepted, if set, may replace the i-th accepted connection (fault injection on the server's side of it)
 	wrapAccepted func(i int, c net.Conn) net.Conn
@@ -124,21 +126,67 @@ func (r *e2eRig) clientCfg(uid []byte, sid uint32, method, browser, serverName s
 
 // serve accepts n connections and dispatches each like Serve does.
 func (r *e2eRig) serve(n int) {
-	vrt.Go("srv-listener", func() {
-		for i := 0; i < n; i++ {
-			c, err := r.srvL.Accept()
-			if err != nil {
-				return
-			}
-			if r.wrapAccepted != nil {
-				if c = r.wrapAccepted(i, c); c == nil {
-					continue // the hook keeps the connection for itself
-				}
-			}
-			vrt.Go(fmt.Sprintf("dispatch%d", i), func() { dispatchConnection(c, r.sta) })
-		}
-	})
+	r.serveOn(r.srvL, n)
 }
+
+// serveOn runs the server's own accept loop (server.Serve) on a listener of the rig: at most n
+// connections are handed to it, each passed through wrapAccepted first.
+func (r *e2eRig) serveOn(l net.Listener, n int) {
+	rl := &rigListener{r: r, l: l, n: n, never: make(chan struct{}, 1)}
+	vrt.Go("srv-listener", func() { Serve(rl, r.sta) })
+}
+
+type rigListener struct {
+	r     *e2eRig
+	l     net.Listener
+	n, i  int
+	never chan struct{}
+}
+
+func (l *rigListener) Accept() (net.Conn, error) {
+	for {
+		if l.i >= l.n {
+			vrt.Recv(l.never) // the rig takes no more connections
+		}
+		c, err := l.l.Accept()
+		if err != nil {
+			// (the accept loop would retry with growing pauses for ever)
+			vrt.Recv(l.never)
+		}
+		i := l.r.accepted
+		l.r.accepted++
+		l.i++
+		if l.r.wrapAccepted != nil {
+			if c = l.r.wrapAccepted(i, c); c == nil {
+				continue // the hook keeps the connection for itself
+			}
+		}
+		return c, nil
+	}
+}
+func (l *rigListener) Close() error   { return l.l.Close() }
+func (l *rigListener) Addr() net.Addr { return l.l.Addr() }
+
+// serveConn hands one already accepted connection to the server's accept loop.
+func serveConn(name string, c net.Conn, sta *State) {
+	vrt.Go(name, func() { Serve(&oneConnListener{c: c, never: make(chan struct{}, 1)}, sta) })
+}
+
+type oneConnListener struct {
+	c     net.Conn
+	never chan struct{}
+}
+
+func (l *oneConnListener) Accept() (net.Conn, error) {
+	if c := l.c; c != nil {
+		l.c = nil
+		return c, nil
+	}
+	vrt.Recv(l.never)
+	return nil, errors.New("closed")
+}
+func (l *oneConnListener) Close() error   { return nil }
+func (l *oneConnListener) Addr() net.Addr { return tcpAddr{"one"} }
 
 func sessionsOf(p *userPanel, uid []byte) map[uint32]*mux.Session {
 	u := p.activeUsers[arr16(uid)]
